@@ -103,7 +103,12 @@ func (eng) Cases(seed uint64, tier string) []core.CaseDesc {
 						c := cfg{NoSchema: noSchema, PushMs: push, Kind: "conv"}
 						switch tr {
 						case 1:
+							// every other repetition lists the allowed states in another
+							// order than the source declares them
 							c.Allow = []string{"A", "C", "D"}
+							if k%2 == 1 {
+								c.Allow = []string{"D", "A", "C"}
+							}
 						case 2:
 							c.Skip = []string{"B"}
 						}
